@@ -118,22 +118,23 @@ func sortStrings(a []string) {
 }
 
 type gen struct {
-	r        *core.Rand
-	id       int
-	gamma    map[string]*Ty
-	scal     []string
-	conts    []string
-	funcs    []string
-	objs     []string
-	tmpls    []*Tmpl
-	phi      map[string]*Ty
-	loopN    int
-	budget   int
-	excl     string
-	defining []string
-	fnDepth  int
-	noReturn int
-	used     []string // extra names (loop variables, counters) for the global dump
+	r         *core.Rand
+	id        int
+	gamma     map[string]*Ty
+	scal      []string
+	conts     []string
+	funcs     []string
+	objs      []string
+	tmpls     []*Tmpl
+	phi       map[string]*Ty
+	loopN     int
+	budget    int
+	excl      string
+	defining  []string
+	fnDepth   int
+	noReturn  int
+	reachMemo map[reachKey][]reach
+	used      []string // extra names (loop variables, counters) for the global dump
 }
 
 var tyScalar = &Ty{K: kScalar}
@@ -210,6 +211,27 @@ type pstep struct {
 	list bool
 	idx  int
 	key  mkey
+}
+
+type reachKey struct {
+	t     *Ty
+	depth int
+}
+
+// reachOf is reachable() memoized per type (types are immutable once the
+// program typing is fixed).
+func (g *gen) reachOf(t *Ty, depth int) []reach {
+	if g.reachMemo == nil {
+		g.reachMemo = map[reachKey][]reach{}
+	}
+	k := reachKey{t, depth}
+	if r, ok := g.reachMemo[k]; ok {
+		return r
+	}
+	var rs []reach
+	reachable(t, nil, depth, &rs)
+	g.reachMemo[k] = rs
+	return rs
 }
 
 // reachable lists every position inside a value of type t (depth <= 3).
@@ -309,8 +331,7 @@ func (g *gen) positions(sc *sscope, want func(*Ty) bool, vars, paths bool) []can
 	}
 	if paths {
 		for _, rt := range g.rootsAll(sc) {
-			var rs []reach
-			reachable(rt.ty, nil, 3, &rs)
+			rs := g.reachOf(rt.ty, 3)
 			for _, rc := range rs {
 				if want(rc.ty) {
 					res = append(res, cand{rt.root, rc.steps, rc.ty})
@@ -719,8 +740,7 @@ func (g *gen) pathWrite(sc *sscope) []Stmt {
 		return nil
 	}
 	rt := rts[g.r.Intn(len(rts))]
-	var rs []reach
-	reachable(rt.ty, nil, 3, &rs)
+	rs := g.reachOf(rt.ty, 3)
 	var steps []pstep
 	var vt *Ty
 	if g.chance(1, 4) {
@@ -1333,8 +1353,7 @@ func generate(r *core.Rand) *Program {
 	case 0, 1:
 		g.gamma[name(3)] = t1
 	case 2:
-		var rs []reach
-		reachable(t1, nil, 2, &rs)
+		rs := g.reachOf(t1, 2)
 		var cs []*Ty
 		for _, x := range rs {
 			if x.ty.K == kList || x.ty.K == kMap {
@@ -1362,6 +1381,7 @@ func generate(r *core.Rand) *Program {
 		// a function value as a plain map member (no `this`)
 		t1.Keys = append(t1.Keys, mkey{s: "fn"})
 		t1.Vals = append(t1.Vals, g.gamma[name(4)])
+		g.reachMemo = nil
 	}
 	global := &sscope{def: map[string]bool{}}
 	var body []Stmt
@@ -1392,8 +1412,7 @@ func generate(r *core.Rand) *Program {
 	p := &Program{Body: body}
 	// probes: pure expressions on the global scope
 	for _, rt := range g.rootsAll(global) {
-		var rs []reach
-		reachable(rt.ty, nil, 3, &rs)
+		rs := g.reachOf(rt.ty, 3)
 		for k := 0; k < 2 && len(rs) > 0; k++ {
 			rc := rs[r.Intn(len(rs))]
 			p.Probes = append(p.Probes, g.mkPath(rt.root, rc.steps))
